@@ -86,7 +86,13 @@ class ResizableFile(object):
     def __init__(self, fileName, initialSize = 1024, resizeFactor = 2.0, defaultContent = None):
         self.__fileName = fileName
         self.__resizeFactor = resizeFactor
-        if not os.path.exists(fileName):
+        create = not os.path.exists(fileName)
+        if not create and defaultContent:
+            # A process that was killed while it created this file left it empty or with a part of
+            # the initial content only: nothing was ever stored in it, it is created again.
+            with open(fileName, 'rb') as f:
+                create = len(f.read(len(defaultContent))) < len(defaultContent)
+        if create:
             with open(fileName, 'wb') as f:
                 if defaultContent is not None:
                     f.write(defaultContent)
